@@ -1,5 +1,6 @@
 import TypstyleModel.Props.C01
 import TypstyleModel.Model.Printer.Knot
+import TypstyleModel.Proofs.Table
 /-! C02 — formatting never changes what the document compiles to (partial: no model of the Typst
 evaluator exists; proved here is the white-space decision table at the edges of a piece of markup,
 which together with C01/C08/C09/C10 reduces C02 to "evaluation is invariant under tree equivalence and
@@ -39,5 +40,34 @@ theorem C02_document_edges (scope : Scope) (isSym hasLB suppressed : Bool) (b : 
   rcases hs with rfl | rfl <;> cases b <;> simp [getDelim]
 
 theorem C02_layout_sound (w : Nat) (d : Doc) : Lay .brk d (best w 0 [⟨0, .brk, d⟩]) := pretty_lay w d
+
+/-- T2.2 (table reflow keeps the cells): `convert_table` distributes the positional arguments of a
+`table`/`grid` call over rows; read row by row the cells are exactly the positional arguments in source
+order — none lost, duplicated or moved, whatever the column count, headers and footers. -/
+theorem C02_table_rows_keep_the_cells (columns : Nat) (posArgs : List ANode) :
+    let rr := posArgs.foldl (tableRowStep columns) (([] : List (List ANode)), ([] : List ANode))
+    (if !rr.2.isEmpty then rr.1 ++ [rr.2] else rr.1).flatten = posArgs := by
+  intro rr
+  have h := foldl_tableRowStep_flatten columns posArgs ([], [])
+  simp only [List.flatten_nil, List.append_nil, List.nil_append] at h
+  split
+  · rw [List.flatten_append]; simpa using h
+  · rename_i he
+    have : rr.2 = [] := by simpa using he
+    rw [this, List.append_nil] at h
+    exact h
+
+/-- … and no row is longer than the column count (so cells never move to another column). -/
+theorem C02_table_rows_fit_the_columns (columns : Nat) (hc : 0 < columns) (posArgs : List ANode) :
+    let rr := posArgs.foldl (tableRowStep columns) (([] : List (List ANode)), ([] : List ANode))
+    ∀ r ∈ (if !rr.2.isEmpty then rr.1 ++ [rr.2] else rr.1), r.length ≤ columns := by
+  intro rr r hr
+  have h := foldl_tableRowStep_ok columns posArgs ([], []) ⟨by simp, by simpa using hc⟩
+  split at hr
+  · simp only [List.mem_append, List.mem_singleton] at hr
+    rcases hr with hr | rfl
+    · exact h.1 r hr
+    · exact Nat.le_of_lt h.2
+  · exact h.1 r hr
 
 end Typstyle
